@@ -143,12 +143,14 @@ pub fn judge_interval(ch: &BwChrom, s: u32, e: u32, got: &[BwVal], who: &str) ->
         ));
     }
     for z in got.iter().filter(|v| v.e == v.s) {
+        // a zero-length answer is either a stored zero-length value inside / touching the range, or
+        // (empty range only) the clipping artefact of a value containing / touching the point; a
+        // positive-length value can never be clipped to nothing by a non-empty range it overlaps
         let ok = z.s >= s
             && z.s <= e
-            && ch
-                .vals
-                .iter()
-                .any(|v| v.s <= z.s && z.s <= v.e && v.v.to_bits() == z.v.to_bits());
+            && ch.vals.iter().any(|v| {
+                v.v.to_bits() == z.v.to_bits() && ((v.s == v.e && v.s == z.s) || (s == e && v.s <= z.s && z.s <= v.e))
+            });
         if !ok {
             return Err(format!(
                 "{}: get_interval({:?},{},{}) returned the zero-length item {:?} which no stored value justifies",
@@ -196,7 +198,7 @@ impl Prop for C03 {
     fn rule() -> String {
         "a C01 file plus a history of 5..60 operations (get_interval, values, get_zoom_interval, reopen, repeat-an-earlier-operation) with coordinates biased to value \
          boundaries +-1, empty ranges, 0 and the chromosome end; the same history runs on a plain reader, a cached reader and a reopened reader; every answer is compared \
-         with the model (clipped positive-length overlaps bit-exact, ascending; zero-length items optional but must be justified; per-base array NaN where no data) and the readers \
+         with the model (clipped positive-length overlaps bit-exact, ascending; zero-length items optional but must be justified: a stored zero-length value at that point, or - for an empty range only - a stored value containing or touching the point; per-base array NaN where no data) and the readers \
          with each other. Fixed case: 5200 single-item blocks queried one by one twice (crosses the 5000-entry cache reset). \
          non-trivial = history has a query clipping one value on both sides AND repeats an earlier query after others; distinct = distinct case JSON"
             .into()
